@@ -28,7 +28,14 @@ Record case := mk_case {
   c_nested : bool;
   c_hop2 : hop;
   c_children2 : list child;
-  o_att2 : list (Z * list Z)   (* per distinct level-1 row uid: sorted uids attached to it *)
+  o_att2 : list (Z * list Z);  (* per distinct level-1 row uid: sorted uids attached to it *)
+  (* whole rows, column for column *)
+  c_cols : list string;            (* columns of the related model (schema.DBNames order) *)
+  c_rows : list (Z * list sqlval); (* uid |-> the stored row (raw SELECT), for the uids the attached records carry *)
+  c_jcols : list string;           (* many2many Association().Find: every column of the join table ... *)
+  c_jrows : list (list sqlval);    (* ... and every join row (same order as c_joins) *)
+  c_alias : string;                (* Joins: alias of the joined relation *)
+  o_recs : list (Z * list sqlval)  (* observed: uid |-> what an attached / returned record holds per column *)
 }.
 
 Definition tsk := to_string_key.
@@ -82,6 +89,25 @@ Definition per_parent_ok (single : bool) (obs ref : outs) : bool :=
   && forallb (fun p => if single then single_ok (fst p) (snd p) else zlist_eqb (fst p) (sortz (snd p)))
              (combine obs ref).
 
+(* the attached record IS the stored row: it holds, column for column, what the row with its uid stores
+   (a NULL column reads as the zero value of a Go field that is not a pointer) *)
+Definition mem_eqb (stored held : sqlval) : bool :=
+  match stored, held with
+  | VNull, VNull => true
+  | VNull, VInt z => z =? 0
+  | VNull, VText s => String.eqb s ""
+  | VInt a, VInt b => a =? b
+  | VText a, VText b => String.eqb a b
+  | _, _ => false
+  end.
+Fixpoint lookup_row (u : Z) (rs : list (Z * list sqlval)) : option (list sqlval) :=
+  match rs with [] => None | (k, v) :: r => if k =? u then Some v else lookup_row u r end.
+Definition rows_ok (c : case) : bool :=
+  forallb (fun r => match lookup_row (fst r) (c_rows c) with
+                    | Some vs => list_eqb mem_eqb vs (snd r) && (length vs =? length (c_cols c))%nat
+                    | None => false
+                    end) (o_recs c).
+
 Definition spec_holds (c : case) : bool :=
   let h := c_hop c in
   let ref := match c_mode c with
@@ -90,6 +116,7 @@ Definition spec_holds (c : case) : bool :=
                     else attach h (c_parents c) (c_children c)
              end in
   (o_err c =? 0)
+  && rows_ok c
   && match c_mode c with
      | MPreload | MJoins =>
        per_parent_ok (h_single h) (o_att c) ref
